@@ -32,9 +32,12 @@ append = Function('append', V, V, V)
 take = Function('take', V, INT, V)
 drop = Function('drop', V, INT, V)
 upd = Function('upd', V, INT, V, V)
+slice_to = Function('slice_to', V, INT, V)      # s[:n] with Python's clamping
+slice_from = Function('slice_from', V, INT, V)  # s[n:]
 SeqEq = Function('SeqEq', V, V, BOOL)
 seq_remove = Function('seq_remove', V, V, V)   # remove the (unique) occurrence
 nodup = Function('nodup', V, BOOL)
+restrict = Function('restrict', V, V, V)    # order-preserving subsequence of a seq: the elements that are keys of a map
 
 # maps
 has = Function('has', V, V, BOOL)
@@ -45,6 +48,7 @@ rem = Function('rem', V, V, V)
 keys = Function('keys', V, V)              # Seq of keys in insertion order
 MapEq = Function('MapEq', V, V, BOOL)
 mupdate = Function('mupdate', V, V, V)     # dict.update(other)
+MapEqv = Function('MapEqv', V, V, BOOL)    # same keys and values, key order ignored
 
 # sets
 smem = Function('smem', V, V, BOOL)
@@ -127,6 +131,16 @@ def axioms():
     ax('take_all', ForAll([s], Implies(tag(s) == TAG_SEQ, take(s, slen(s)) == s), patterns=[take(s, slen(s))]))
     ax('take_snoc', ForAll([s, x], Implies(tag(s) == TAG_SEQ, take(snoc(s, x), slen(s)) == s),
                            patterns=[take(snoc(s, x), slen(s))]))
+    ax('take_take', ForAll([s, n, i], Implies(And(0 <= i, i <= n, n <= slen(s)), take(take(s, n), i) == take(s, i)),
+                           patterns=[take(take(s, n), i)]))
+    ax('slice_to_def', ForAll([s, n], slice_to(s, n) == take(s, If(If(n < 0, slen(s) + n, n) < 0, 0,
+                                                                 If(If(n < 0, slen(s) + n, n) > slen(s), slen(s),
+                                                                    If(n < 0, slen(s) + n, n)))),
+                              patterns=[slice_to(s, n)]))
+    ax('slice_from_def', ForAll([s, n], slice_from(s, n) == drop(s, If(If(n < 0, slen(s) + n, n) < 0, 0,
+                                                                   If(If(n < 0, slen(s) + n, n) > slen(s), slen(s),
+                                                                      If(n < 0, slen(s) + n, n)))),
+                                patterns=[slice_from(s, n)]))
     ax('drop_tag', ForAll([s, n], tag(drop(s, n)) == TAG_SEQ, patterns=[drop(s, n)]))
     ax('drop_len', ForAll([s, n], Implies(And(0 <= n, n <= slen(s)), slen(drop(s, n)) == slen(s) - n),
                           patterns=[drop(s, n)]))
@@ -198,6 +212,26 @@ def axioms():
         SeqEq(keys(m), keys(m2))), patterns=[MapEq(m, m2)]))
     ax('mapeq_ext', ForAll([m, m2], Implies(And(MapEq(m, m2), tag(m) == TAG_MAP, tag(m2) == TAG_MAP), m == m2),
                            patterns=[MapEq(m, m2)]))
+    ax('mapeqv_def', ForAll([m, m2], MapEqv(m, m2) == And(
+        ForAll([k], has(m, k) == has(m2, k), patterns=[has(m, k), has(m2, k)]),
+        ForAll([k], Implies(has(m, k), get(m, k) == get(m2, k)), patterns=[get(m, k), get(m2, k)])),
+        patterns=[MapEqv(m, m2)]))
+    ax('map_len0_empty', ForAll([m], Implies(And(tag(m) == TAG_MAP, slen(keys(m)) == 0), m == map_empty),
+                                patterns=[keys(m)]))
+    ax('mupdate_empty', ForAll([m], Implies(tag(m) == TAG_MAP, mupdate(m, map_empty) == m),
+                               patterns=[mupdate(m, map_empty)]))
+    ax('restrict_tag', ForAll([s, m], tag(restrict(s, m)) == TAG_SEQ, patterns=[restrict(s, m)]))
+    ax('restrict_mem', ForAll([s, m, x], mem(restrict(s, m), x) == And(mem(s, x), has(m, x)),
+                              patterns=[mem(restrict(s, m), x)]))
+    ax('restrict_nodup', ForAll([s, m], Implies(nodup(s), nodup(restrict(s, m))), patterns=[restrict(s, m)]))
+    ax('restrict_order', ForAll([s, m, i, j], Implies(And(nodup(s), 0 <= i, i < j, j < slen(restrict(s, m))),
+                                                      idx(s, at(restrict(s, m), i)) < idx(s, at(restrict(s, m), j))),
+                                patterns=[MultiPattern(at(restrict(s, m), i), at(restrict(s, m), j))]))
+    ax('restrict_ext', ForAll([s, m, m2], Implies(ForAll([x], Implies(mem(s, x), has(m, x) == has(m2, x))),
+                                                  restrict(s, m) == restrict(s, m2)),
+                              patterns=[MultiPattern(restrict(s, m), restrict(s, m2))]))
+    ax('restrict_all', ForAll([s, m], Implies(And(tag(s) == TAG_SEQ, ForAll([x], Implies(mem(s, x), has(m, x)))),
+                                              restrict(s, m) == s), patterns=[restrict(s, m)]))
     ax('mupdate_tag', ForAll([m, m2], tag(mupdate(m, m2)) == TAG_MAP, patterns=[mupdate(m, m2)]))
     ax('mupdate_has', ForAll([m, m2, k], has(mupdate(m, m2), k) == Or(has(m, k), has(m2, k)),
                              patterns=[has(mupdate(m, m2), k)]))
